@@ -43,6 +43,10 @@ BUILT = {
          "The 65,536 x value-range encoding sweep is pending (MoveEnc).", "TLA+ spec + TLC enumeration + replay", "5 C17"),
  "C18": ("model_checking", "Geometry.tla enumerates every entry of every lookup table (sliding attacks for every occupancy of the line squares, rays, between, masks, distances, shifts) from coordinate definitions; each entry is compared with the engine's table, sliders with extra off-line occupancy.",
          "Finite domain covered completely (quick: magic-table occupancies, thorough: full lines).", "TLA+ definitions + TLC exhaustive enumeration + comparison", "5 C18"),
+ "C19": ("model_checking", "BookBuild.tla models the per-game goroutines adding moves under the book mutex and is checked for all interleavings (positions and visit counts equal the sequential fold; links sound, unique, one parent). Games are behaviours of ChessGame.tla from the start position, rendered as Simple/SAN/PGN from the specification's SAN components; the real book is compared by key with the sequential fold, every offered move with the played legal edges; illegal tokens mid-line; GOMAXPROCS variants; race detector; TLC-enumerated interleavings of three real games are forced through the addToBook gate and the resulting links compared with the model.",
+         "Hook H5 (gate + 'added' event). PGN decorations of class A (what the repository's sample files contain); cross-format equality with Simple on promotion-free games.", "TLA+ model of the parallel build + TLC enumeration + gated replay + content comparison", "5 C19"),
+ "C20": ("fault_enumeration", "BookCache.tla (file states x repeated initialisation, NoHang / ResultIsSourceBook / Terminates) is model-checked; on the real code EVERY prefix length of a written cache file, seeded bit flips, garbage and a missing file are enumerated: a child process initialises the book twice in a row under a watchdog and must end with the book built from the source file; save -> load round trip.",
+         "Quick: a 3-game book (about 1.9 k prefixes); thorough adds a 500-game book.", "TLA+ model + exhaustive crash-point enumeration on the real code", "5 C20"),
 }
 
 checks = []
